@@ -1,4 +1,5 @@
 import UralModel.Lemmas.Quote
+import UralModel.Lemmas.QuoteIdem
 import UralModel.Gen.QuoteTables
 /-!
 # C14 — Safe quoting/unquoting preserves decoded content and delimiters
@@ -43,6 +44,12 @@ theorem tables_patterns :
     [Gen.Quote.quotedSplitPatternFlags, Gen.Quote.quotedPatternFlags,
       Gen.Quote.lowercaseQuotedPatternFlags, Gen.Quote.asciiRunPatternFlags,
       Gen.Quote.c1ControlPatternFlags] = [32, 32, 32, 32, 32] := by decide
+
+/-- the four unsafe sets only hold ASCII bytes (a re-escaped byte ≥ 0x80 is never "unsafe") -/
+theorem tables_ascii :
+    AsciiSet Gen.Quote.unsafeForAuthItem ∧ AsciiSet Gen.Quote.unsafeForPath ∧
+    AsciiSet Gen.Quote.unsafeForQueryItem ∧ AsciiSet Gen.Quote.unsafeForFragment := by
+  unfold AsciiSet; decide
 
 /-! ## scanning
 
@@ -184,6 +191,16 @@ theorem unquote_no_new_control (U : List UInt8) (s : Str) :
     subst hch
     unfold isControl at hctl
     omega
+
+/-- **idempotence**: unquoting twice is unquoting once (for every unsafe set of ASCII bytes
+containing `%`).  The second pass turns the re-escaped ill-formed bytes and C1 controls back
+into pending bytes and segments them again in a shorter context; `Good` segment lists
+(`Lemmas/QuoteIdem.lean`) are closed under sub-runs, so it reproduces the first pass. -/
+theorem unquote_idempotent (U : List UInt8) (hU : (0x25 : UInt8) ∈ U) (hA : AsciiSet U) (s : Str) :
+    safelyUnquote U (safelyUnquote U s) = safelyUnquote U s := by
+  have h := (unquote_tokens U hU s).1
+  unfold safelyUnquote at h ⊢
+  rw [h, unquoteToks_idem U hU hA]
 
 /-! ## non-vacuity: the four regenerated configurations on a string with every kind of token -/
 
